@@ -125,8 +125,8 @@ fn arg(i: usize, kind: Kind, declared: &'static str, ty: &'static str, safe: boo
     let valid_alts: Vec<&'static str> = match ty {
         "token" => vec!["YWJj==", "a+b/c~._-", "A", "0=", "++++/w=="],
         "datetime" => vec!["2017-01-02T03:04:05.123456789Z", "2017-01-02T03:04:05+01:00", "0000-01-01T00:00:00Z", "9999-12-31T23:59:59.999999999Z"],
-        "integer" => vec!["-2147483648", "2147483647", "0", "-0"],
-        "double" => vec!["NaN", "-Infinity", "Infinity", "1e3", "-0.0", "5e-324"],
+        "integer" => vec!["-2147483648", "2147483647", "0", "-0", "007"],
+        "double" => vec!["NaN", "-Infinity", "Infinity", "1e3", "-0.0", "5e-324", "1e+21", "2.5E+3", "1E-7", "1.7976931348623157e308", "0.1", "123456789.12345679"],
         "boolean" => vec!["false"],
         "safelong" => vec!["-9007199254740991", "9007199254740991", "0"],
         "rid" => vec!["ri.a..c.D_-.", "ri.a-1.0b.c-2.d.e"],
